@@ -5,6 +5,7 @@ import (
 	"fmt"
 	"math/rand"
 	"strconv"
+	"strings"
 	"sync"
 	"testing"
 	"time"
@@ -89,6 +90,30 @@ func (g *gatePeer) fn(ctx context.Context, node int, req *storepb.WriteRequest) 
 	return nil
 }
 
+// otlpBodyN: npoints data points (= series) for request r; pad is an extra attribute value.
+func otlpBodyN(t testing.TB, r, npoints int, pad string) []byte {
+	md := pmetric.NewMetrics()
+	rm := md.ResourceMetrics().AppendEmpty()
+	m := rm.ScopeMetrics().AppendEmpty().Metrics().AppendEmpty()
+	m.SetName("verif_gate")
+	g := m.SetEmptyGauge()
+	for k := 0; k < npoints; k++ {
+		dp := g.DataPoints().AppendEmpty()
+		dp.SetIntValue(int64(r))
+		dp.SetTimestamp(pcommon.NewTimestampFromTime(time.Unix(1700000000, 0)))
+		dp.Attributes().PutStr("vreq", strconv.Itoa(r))
+		dp.Attributes().PutStr("k", strconv.Itoa(k))
+		if pad != "" {
+			dp.Attributes().PutStr("pad", pad)
+		}
+	}
+	b, err := pmetricotlp.NewExportRequestFromMetrics(md).MarshalProto()
+	if err != nil {
+		t.Fatalf("otlp marshal: %v", err)
+	}
+	return b
+}
+
 func otlpBody(t testing.TB, r int) []byte {
 	md := pmetric.NewMetrics()
 	rm := md.ResourceMetrics().AppendEmpty()
@@ -113,14 +138,15 @@ type gateReq struct {
 }
 
 type gateRun struct {
-	t    *testing.T
-	e    *env
-	gp   *gatePeer
-	reqs map[int]*gateReq
-	eps  []string
-	h2   bool
-	slow int
-	diag string
+	t      *testing.T
+	e      *env
+	gp     *gatePeer
+	reqs   map[int]*gateReq
+	eps    []string
+	h2     bool
+	reject map[int]string // request -> kind of limit it exceeds
+	slow   int
+	diag   string
 }
 
 func (gr *gateRun) send(r int) {
@@ -131,11 +157,41 @@ func (gr *gateRun) send(r int) {
 	var body []byte
 	var url string
 	hdr := map[string]string{}
+	// a request that exceeds a request limit: too many series (3 > series_limit 2) or too large
+	// (> size_bytes_limit 4096); it passes the gate first and is then answered 413
+	npoints, pad := 1, 0
+	switch gr.reject[r] {
+	case "toomany":
+		npoints = 3
+	case "toolarge": // incompressible: already the compressed body exceeds the limit (Content-Length check)
+		pad = 12000
+	case "toolarge2": // compressible: only the decoded request exceeds the limit
+		pad = -6000
+	}
+	padding := ""
+	if pad > 0 {
+		pr := rand.New(rand.NewSource(int64(r) + 77))
+		b := make([]byte, pad)
+		for i := range b {
+			b[i] = "abcdefghijklmnopqrstuvwxyzABCDEFGHIJKLMNOPQRSTUVWXYZ0123456789"[pr.Intn(62)]
+		}
+		padding = string(b)
+	} else if pad < 0 {
+		padding = strings.Repeat("x", -pad)
+	}
 	if ep == "otlp" {
-		body, url = otlpBody(gr.t, r), gr.e.url+"/api/v1/otlp"
+		body, url = otlpBodyN(gr.t, r, npoints, padding), gr.e.url+"/api/v1/otlp"
 		hdr["Content-Type"] = "application/x-protobuf"
 	} else {
-		body = v1Body(gr.t, []prompb.TimeSeries{series(map[string]string{"__name__": "verif_gate", "vreq": strconv.Itoa(r)}, 1700000000000, float64(r))})
+		var tss []prompb.TimeSeries
+		for k := 0; k < npoints; k++ {
+			lb := map[string]string{"__name__": "verif_gate", "vreq": strconv.Itoa(r), "k": strconv.Itoa(k)}
+			if padding != "" {
+				lb["pad"] = padding
+			}
+			tss = append(tss, series(lb, 1700000000000, float64(r)))
+		}
+		body = v1Body(gr.t, tss)
 		url = gr.e.url + "/api/v1/receive"
 		hdr["Content-Type"] = "application/x-protobuf"
 		hdr["Content-Encoding"] = "snappy"
@@ -183,12 +239,19 @@ func runGateCase(t *testing.T, tr *vt.Tracer, caseID int64, c vt.Case) {
 	max := vt.Int(c["max"])
 	eps := vt.Strs(c["eps"])
 	h2 := vt.Str(c["tr"]) == "h2"
-	e := newEnv(t, envOpts{nodes: 1, rf: 1, maxConcurrency: max, tls: h2})
+	reject := map[int]string{}
+	if v, ok := c["reject"]; ok {
+		kinds := vt.Strs(c["rkinds"])
+		for i, r := range vt.Ints(v) {
+			reject[r] = kinds[i%len(kinds)]
+		}
+	}
+	e := newEnv(t, envOpts{nodes: 1, rf: 1, maxConcurrency: max, tls: h2, requestLimits: len(reject) > 0})
 	defer e.close()
 	gp := &gatePeer{tr: tr, caseID: caseID, seen: map[int]bool{}, release: map[int]chan struct{}{}}
 	setPeerFunc(e.peers, gp.fn)
 	defer setPeerFunc(e.peers, nil)
-	gr := &gateRun{t: t, e: e, gp: gp, reqs: map[int]*gateReq{}, eps: eps, h2: h2}
+	gr := &gateRun{t: t, e: e, gp: gp, reqs: map[int]*gateReq{}, eps: eps, h2: h2, reject: reject}
 	tr.Emit(vt.Event{"ev": "case", "case": caseID, "in": c, "kf": ""})
 
 	releaseReq := func(r int) {
@@ -276,7 +339,16 @@ func runGateCase(t *testing.T, tr *vt.Tracer, caseID int64, c vt.Case) {
 	gp.mu.Lock()
 	maxSeen, total := gp.maxSeen, gp.total
 	gp.mu.Unlock()
-	tr.Emit(vt.Event{"ev": "End", "case": caseID, "panics": e.plog.Count(), "panic_msg": e.plog.First(),
+	statuses := map[string]int{}
+	for r, q := range gr.reqs {
+		select {
+		case <-q.done:
+			statuses[strconv.Itoa(r)] = q.status
+		default:
+			statuses[strconv.Itoa(r)] = -1
+		}
+	}
+	tr.Emit(vt.Event{"ev": "End", "case": caseID, "statuses": statuses, "panics": e.plog.Count(), "panic_msg": e.plog.First(),
 		"max_inflight": maxSeen, "admitted": total, "stuck": stuck, "slow": gr.slow, "diag": gr.diag})
 }
 
@@ -296,6 +368,7 @@ func TestC24(t *testing.T) {
 		// Over HTTP/1.1 the server only notices a vanished client once the body has been read, i.e.
 		// after the gate; over HTTP/2 (TLS) the stream reset cancels the request context at once.
 		// Scripts with a cancellation therefore run over HTTP/2; the others over either.
+		c["rkinds"] = []string{[]string{"toomany", "toolarge", "toolarge2"}[rnd.Intn(3)]}
 		c["tr"] = []string{"h1", "h2"}[rnd.Intn(2)]
 		for _, o := range vt.List(c["ops"]) {
 			if vt.Str(vt.Map(o)["op"]) == "cancel" {
@@ -310,7 +383,19 @@ func TestC24(t *testing.T) {
 	n := vt.Pick(60, 600)
 	for i := 0; i < n; i++ {
 		id++
-		runGateCase(t, tr, id, vt.Case{"max": 1 + rnd.Intn(3), "n": 2 + rnd.Intn(7), "sseed": rnd.Int63n(1 << 40), "eps": epChoices[rnd.Intn(len(epChoices))],
-			"tr": []string{"h1", "h2", "h2"}[rnd.Intn(3)]})
+		nreq := 2 + rnd.Intn(7)
+		rej, kinds := []int{}, []string{"toomany", "toolarge", "toolarge2"}
+		if rnd.Intn(3) == 0 { // some requests exceed a request limit
+			for r := 1; r <= nreq; r++ {
+				if rnd.Intn(3) == 0 {
+					rej = append(rej, r)
+				}
+			}
+			if rnd.Intn(2) == 0 {
+				kinds = []string{"toolarge2", "toolarge", "toomany"}
+			}
+		}
+		runGateCase(t, tr, id, vt.Case{"max": 1 + rnd.Intn(3), "n": nreq, "sseed": rnd.Int63n(1 << 40), "eps": epChoices[rnd.Intn(len(epChoices))],
+			"tr": []string{"h1", "h2", "h2"}[rnd.Intn(3)], "reject": rej, "rkinds": kinds})
 	}
 }
